@@ -56,6 +56,10 @@ Restore == /\ phase = "restore"
            /\ phase' = "idle" /\ pos' = pos + 1 /\ UNCHANGED <<hist, saved>>
 Next == Enter \/ Switch \/ Work \/ Restore
 Spec == Init /\ [][Next]_vars
+(* liveness: every history is worked off and every switched mode is eventually switched back *)
+FairSpec == Spec /\ WF_vars(Next)
+HistoryDone == <>(pos > Len(hist) /\ phase = "idle")
+ModesEventuallyRestored == [](mode # InitMode => <>(mode = InitMode))
 
 ModesRestored == phase = "idle" => mode = InitMode
 NoLeak == (phase = "restore" /\ pos <= Len(hist) /\ Rejected(Cur)) => mode = saved
